@@ -596,7 +596,7 @@ def ts_value():
 def get_engine(ctx):
     def build():
         e = Engine(ctx)
-        n0 = len(TopV.log)
+        n0 = TopV.count
         e.fixpoint()
         e.latent_layer()
         seen = []
@@ -610,8 +610,8 @@ def get_engine(ctx):
         for key, (_sh, _paths, err) in e._latent.items():
             if err:
                 seen.append("latent layer {}: {}".format(key, err))
-        if not seen:
-            for why in TopV.log[n0:]:
+        if not seen and TopV.count > n0:
+            for why in TopV.recent[-min(TopV.count - n0, len(TopV.recent)):]:
                 if "unknown value: " + why not in seen:
                     seen.append("unknown value: " + why)
         e.incomplete = seen
